@@ -29,6 +29,9 @@ def run(repo, chk, tier):
     check_bw_tables(repo, chk, tier)
     try:
         check_kernels(repo, chk, tier)
+        from .c15_kernels import check_shared_momenta
+
+        check_shared_momenta(repo, chk)
         check_models(repo, chk, tier)
         # the barrier factor of a decay vertex with each of its documented options (shared with C04)
         from .c04 import barrier_options
